@@ -39,6 +39,9 @@ type world struct {
 	got  []string // events seen by the main thread, rendered
 	note []string // scenario observations
 	fail string   // scenario-specific verdict: "clause: text"
+
+	released  bool // the held terminal replies have been delivered
+	atTimeout struct{ seen, released, handled bool }
 }
 
 func (w *world) failf(clause, format string, a ...any) {
@@ -106,6 +109,10 @@ func (w *world) until(pred func() bool) {
 
 func (w *world) checkCursor(row, col int) {
 	tr, tc, _ := w.t.Cursor()
+	if row == -1 && col == -1 && w.atTimeout.seen && w.atTimeout.released && w.atTimeout.handled {
+		w.failf("query-timeout-despite-reply", "CursorPosition timed out although the terminal's report had arrived and been handled before the time-out (events seen: %v)", w.got)
+	}
+	w.atTimeout.seen = false
 	if !(row == -1 && col == -1) && !(row == tr && col == tc) {
 		w.failf("cursor-position", "CursorPosition returned %d,%d (the terminal's cursor is at %d,%d)", row, col, tr, tc)
 	}
@@ -213,7 +220,7 @@ var scenarios = []scenario{
 		w.vx.Close()
 	}},
 	{name: "cursor-position", queue: 8, hold: true, body: func(w *world) {
-		vsched.AddEnv("terminal-replies", true, func() bool { return len(w.con.Held) > 0 }, func() { w.con.Release() })
+		vsched.AddEnv("terminal-replies", true, func() bool { return len(w.con.Held) > 0 }, func() { w.con.Release(); w.released = true })
 		poster(w, "A", 1)
 		row, col := w.vx.CursorPosition()
 		w.checkCursor(row, col)
@@ -223,8 +230,9 @@ var scenarios = []scenario{
 		w.vx.Close()
 	}},
 	{name: "cursor-position-twice", queue: 8, hold: true, body: func(w *world) {
-		vsched.AddEnv("terminal-replies", false, func() bool { return len(w.con.Held) > 0 }, func() { w.con.Release() })
+		vsched.AddEnv("terminal-replies", false, func() bool { return len(w.con.Held) > 0 }, func() { w.con.Release(); w.released = true })
 		for i := 0; i < 2; i++ {
+			w.released = false
 			row, col := w.vx.CursorPosition()
 			w.checkCursor(row, col)
 		}
@@ -362,6 +370,14 @@ func execute(sc *scenario, prefix []int) (*vsched.Result, *world) {
 	res := vsched.Run(prefix, 6000, func(s *vsched.Sched) {
 		s.Closed = true
 		s.Races = true
+		s.OnEnv = func(e *vsched.Env) {
+			if tm := e.Timer(); tm != nil && tm.D == 50*time.Millisecond {
+				// what had happened by the time the query's time-out struck
+				w.atTimeout.seen = true
+				w.atTimeout.released = w.released
+				w.atTimeout.handled = w.con.Idle() && vsched.OthersBlocked("") // everybody, the asking goroutine included, was waiting: the time-out struck in real silence
+			}
+		}
 		s.TimerGate = func(tm *vtime.Timer) bool {
 			if tm.D == 10*time.Millisecond && tm.IsFunc() {
 				// the Escape timer can fire only while the parser waits for input
@@ -389,6 +405,7 @@ func execute(sc *scenario, prefix []int) (*vsched.Result, *world) {
 
 type detail struct {
 	Scenario string   `json:"scenario"`
+	Fair     bool     `json:"fair_order"`
 	Schedule []int    `json:"schedule"`
 	Trace    []string `json:"trace,omitempty"`
 	Events   []string `json:"events_seen,omitempty"`
@@ -462,7 +479,7 @@ func exploreScenario(sc *scenario, bound int, budget int64, shard, nshards int) 
 					sig = fmt.Sprintf("C10|race|close-on-input-goroutine|%s|%s", side[1], rc.Field)
 				}
 			}
-			r.Violation(sig, len(sched), detail{Scenario: sc.name, Schedule: sched, Events: w.got,
+			r.Violation(sig, len(sched), detail{Scenario: sc.name, Fair: vsched.FairOrder, Schedule: sched, Events: w.got,
 				What: fmt.Sprintf("data race on %s: [%s] (inside %s) and [%s] (inside %s) are not ordered by any synchronisation (r = read, w = write)", rc.Field, rc.A, rc.RootA, rc.B, rc.RootB)})
 		}
 		if sig, what := check(sc, res, w); sig != "" {
@@ -488,7 +505,7 @@ func exploreScenario(sc *scenario, bound int, budget int64, shard, nshards int) 
 					tr = append(tr, p.Desc)
 				}
 			}
-			r.Violation(sig, len(tr), detail{Scenario: sc.name, Schedule: sched, Trace: tr, Events: w.got, What: what})
+			r.Violation(sig, len(tr), detail{Scenario: sc.name, Fair: vsched.FairOrder, Schedule: sched, Trace: tr, Events: w.got, What: what})
 		}
 	})
 	r.Count("executions", n)
@@ -521,6 +538,7 @@ func main() {
 		for i := range scenarios {
 			if scenarios[i].name == d.Scenario {
 				vsched.Describe = true
+				vsched.FairOrder = d.Fair
 				res, w := execute(&scenarios[i], d.Schedule)
 				for i, p := range res.Trace {
 					if !p.Fixed {
@@ -546,8 +564,8 @@ func main() {
 	}
 	// bounds explored completely / with an execution budget
 	full := r.Pick(2, 3)
-	top := r.Pick(3, 4)
-	budget := int64(r.Pick(8000, 600000))
+	top := r.Pick(2, 4)
+	budget := int64(r.Pick(0, 1000000))
 	if v := os.Getenv("VERIF_FULL"); v != "" {
 		fmt.Sscan(v, &full)
 	}
@@ -563,9 +581,14 @@ func main() {
 			if only := os.Getenv("VERIF_ONLY"); only != "" && !strings.Contains(","+only+",", ","+scenarios[i].name+",") {
 				continue
 			}
-			exploreScenario(&scenarios[i], full, 0, idx, n)
-			if top > full {
-				exploreScenario(&scenarios[i], top, budget/int64(n), idx, n)
+			// two canonical orders (lowest thread id first / least recently run first):
+			// the set of schedules within k deviations differs, both are explored
+			for _, fair := range []bool{false, true} {
+				vsched.FairOrder = fair
+				exploreScenario(&scenarios[i], full, 0, idx, n)
+				if top > full {
+					exploreScenario(&scenarios[i], top, budget/int64(n), idx, n)
+				}
 			}
 		}
 		r.WorkerDone()
@@ -596,7 +619,7 @@ func main() {
 	}
 	r.Finish(explore.Coverage{
 		States: -1, Transitions: r.Get("points"), Traces: ex, Evaluations: ex,
-		Rule: fmt.Sprintf("stateless exploration of thread schedules of a real Vaxis on a scheduler-aware console backed by the reference terminal: %d scenarios (posting goroutines with a 2-slot and a 16-slot queue, SyncFunc, Resize, typed input, lone ESC around the timer, rendering against input, CursorPosition and ClipboardPop with replies early/late/never, Suspend/Resume, Close and Suspend with a full queue, SIGWINCH, SIGTERM, spinner widget); New runs under the canonical schedule, then every schedule with <=%d deviations completely and with <=%d deviations up to an execution budget (a deviation is a preemption, or a timer/terminal reply/typed input/signal occurring while a thread could run; switches at blocking points are free). Oracle per execution: no panic, no deadlock, blocking posts all delivered and in posting order per goroutine, terminal input in order, query results correct or timed out, Close/Suspend/Resume return, no library goroutine left blocked after Close, console closed exactly once. distinct = scenarios", len(scenarios), full, top),
+		Rule: fmt.Sprintf("stateless exploration of thread schedules of a real Vaxis on a scheduler-aware console backed by the reference terminal: %d scenarios (posting goroutines with a 2-slot and a 16-slot queue, SyncFunc, Resize, typed input, lone ESC around the timer, rendering against input, CursorPosition and ClipboardPop with replies early/late/never, Suspend/Resume, Close and Suspend with a full queue, SIGWINCH, SIGTERM, spinner widget); New runs under the canonical schedule, then every schedule with <=%d deviations completely (under two canonical orders: lowest thread id first and least recently run first) and with <=%d deviations up to an execution budget (a deviation is a preemption, or a timer/terminal reply/typed input/signal occurring while a thread could run; switches at blocking points are free). Oracle per execution: no panic, no deadlock, blocking posts all delivered and in posting order per goroutine, terminal input in order, query results correct or timed out, Close/Suspend/Resume return, no library goroutine left blocked after Close, console closed exactly once. distinct = scenarios", len(scenarios), full, top),
 		Exhaustive: cappedN == 0,
 		Bounds: map[string]any{"deviation_bound_complete": full, "deviation_bound_budgeted": top, "execution_budget_per_scenario": budget, "scenarios": len(scenarios),
 			"scenarios_capped_at_top_bound": cappedN, "step_limit": 6000, "per_scenario": perScenario},
